@@ -1,7 +1,7 @@
 SPECIFICATION Spec
 CONSTANTS
   MaxFields = 1
-  TagNumbers = {0, 15, 16, 2047, 2048, 65535}
+  TagNumbers = {0, 15, 16, 2047, 2048, 65535, 70000}
   MaxId = 2
   GenKinds = {"bool","int","i32","i64","s32","s64","uint","u32","u64","x32","x64","flt","dbl","str","byt","arr","m1","m2","m3","m4"}
   FixPresence = TRUE
